@@ -1,6 +1,1175 @@
-//! `vh feasem`: see /verif/docs/MODULE_CONTRACT.md
+//! `vh feasem`: compile FEA text with the real fea-rs and apply the *compiled* GSUB/GPOS/GDEF to
+//! glyph strings with an interpreter that is independent of fea-rs (C11, spec/FeaSem.tla).
+//!
+//! Requests (ndjson on stdin, or the file given as first argument), one JSON object per line:
+//!   {"tag": .., "fea": <text>, "glyphs": [names in glyph order] | "glyph_order_file": path,
+//!    "add_cids": [lo, hi]?, "queries": [[script, language, [feature tags]], ..],
+//!    "alpha": [glyph ids], "maxlen": 3}
+//! Response: {"tag", "outcome": "ok"|"compile_error"|"panic"|"bad_table", "message",
+//!            "results": [ per query: [[n, [glyphs], [adv]], ..] ]  (only strings whose shaping is not
+//!            the identity; n = 1-based index in the canonical order length, then lexicographic by
+//!            position in alpha), "info": {..}}
+//!
+//! The table reader works on the raw bytes of the tables (located with read-fonts' FontRef) so that
+//! nothing of fea-rs' or write-fonts' object model is shared with the code under test.
+//! Application semantics follow the OpenType specification as implemented by HarfBuzz: lookups in
+//! lookup-list order, for each lookup the glyph positions left to right, at each position the first
+//! subtable that applies wins; lookup flags + GDEF decide which glyphs are skipped; (chained) context
+//! lookups apply their nested lookups at the matched input positions.
 
-pub fn run(_args: &[String]) -> i32 {
-    eprintln!("vh feasem: not implemented yet");
-    2
+use std::collections::{BTreeMap, BTreeSet};
+use std::io::{BufRead, Write};
+use std::path::Path;
+use std::sync::Arc;
+
+use fea_rs::compile::{NopFeatureProvider, NopVariationInfo};
+use fea_rs::{Compiler, GlyphIdent, GlyphMap};
+use serde_json::{Value, json};
+use write_fonts::read::{FontRef, TableProvider, types::Tag};
+
+// ------------------------------------------------------------------------------------------ raw reader
+
+#[derive(Clone, Copy)]
+struct Rd<'a> {
+    d: &'a [u8],
+}
+
+type R<T> = Result<T, String>;
+
+impl<'a> Rd<'a> {
+    fn u16(&self, off: usize) -> R<u16> {
+        self.d
+            .get(off..off + 2)
+            .map(|b| u16::from_be_bytes([b[0], b[1]]))
+            .ok_or_else(|| format!("read past end at {off}"))
+    }
+    fn i16(&self, off: usize) -> R<i16> {
+        self.u16(off).map(|v| v as i16)
+    }
+    fn u32(&self, off: usize) -> R<u32> {
+        self.d
+            .get(off..off + 4)
+            .map(|b| u32::from_be_bytes([b[0], b[1], b[2], b[3]]))
+            .ok_or_else(|| format!("read past end at {off}"))
+    }
+    fn tag(&self, off: usize) -> R<String> {
+        self.d
+            .get(off..off + 4)
+            .map(|b| String::from_utf8_lossy(b).to_string())
+            .ok_or_else(|| format!("read past end at {off}"))
+    }
+    fn at(&self, off: usize) -> R<Rd<'a>> {
+        if off > self.d.len() {
+            return Err(format!("offset {off} outside table"));
+        }
+        Ok(Rd { d: &self.d[off..] })
+    }
+    fn u16s(&self, off: usize, n: usize) -> R<Vec<u16>> {
+        (0..n).map(|k| self.u16(off + 2 * k)).collect()
+    }
+}
+
+fn coverage(r: Rd) -> R<Vec<u16>> {
+    // glyphs in coverage-index order
+    match r.u16(0)? {
+        1 => {
+            let n = r.u16(2)? as usize;
+            r.u16s(4, n)
+        }
+        2 => {
+            let n = r.u16(2)? as usize;
+            let mut out = Vec::new();
+            for k in 0..n {
+                let (s, e) = (r.u16(4 + 6 * k)?, r.u16(6 + 6 * k)?);
+                let start_idx = r.u16(8 + 6 * k)? as usize;
+                if start_idx != out.len() {
+                    return Err("coverage range start index mismatch".into());
+                }
+                for g in s..=e {
+                    out.push(g);
+                }
+            }
+            Ok(out)
+        }
+        f => Err(format!("coverage format {f}")),
+    }
+}
+
+#[derive(Default, Debug, Clone)]
+struct ClassDef(BTreeMap<u16, u16>);
+
+impl ClassDef {
+    fn get(&self, g: u16) -> u16 {
+        self.0.get(&g).copied().unwrap_or(0)
+    }
+}
+
+fn classdef(r: Rd) -> R<ClassDef> {
+    let mut m = BTreeMap::new();
+    match r.u16(0)? {
+        1 => {
+            let start = r.u16(2)?;
+            let n = r.u16(4)? as usize;
+            for k in 0..n {
+                let c = r.u16(6 + 2 * k)?;
+                if c != 0 {
+                    m.insert(start + k as u16, c);
+                }
+            }
+        }
+        2 => {
+            let n = r.u16(2)? as usize;
+            for k in 0..n {
+                let (s, e, c) = (r.u16(4 + 6 * k)?, r.u16(6 + 6 * k)?, r.u16(8 + 6 * k)?);
+                for g in s..=e {
+                    if c != 0 {
+                        m.insert(g, c);
+                    }
+                }
+            }
+        }
+        f => return Err(format!("classdef format {f}")),
+    }
+    Ok(ClassDef(m))
+}
+
+// ------------------------------------------------------------------------------------------ decoded tables
+
+type Val = [i32; 4]; // xPlacement, yPlacement, xAdvance, yAdvance
+
+#[derive(Debug, Clone)]
+struct SeqRec {
+    seq_idx: usize,
+    lookup: usize,
+}
+
+#[derive(Debug, Clone)]
+struct CtxRule {
+    back: Vec<u16>,  // glyph ids or class values, nearest first (as stored)
+    input: Vec<u16>, // from the second input glyph on
+    look: Vec<u16>,
+    recs: Vec<SeqRec>,
+}
+
+#[derive(Debug, Clone)]
+enum Ctx {
+    // rule sets indexed by coverage index of the first glyph
+    Glyphs { cov: Vec<u16>, sets: Vec<Vec<CtxRule>> },
+    // rule sets indexed by the class of the first glyph
+    Classes { cov: Vec<u16>, cb: ClassDef, ci: ClassDef, cl: ClassDef, sets: Vec<Vec<CtxRule>> },
+    Coverages { back: Vec<BTreeSet<u16>>, input: Vec<BTreeSet<u16>>, look: Vec<BTreeSet<u16>>, recs: Vec<SeqRec> },
+}
+
+#[derive(Debug, Clone)]
+enum Sub {
+    Single(BTreeMap<u16, u16>),
+    Multiple(BTreeMap<u16, Vec<u16>>),
+    Ligature(BTreeMap<u16, Vec<(Vec<u16>, u16)>>),
+    Context(Ctx),
+    SinglePos(BTreeMap<u16, Val>),
+    Pair1 { sets: BTreeMap<u16, Vec<(u16, Val, Val)>>, second: bool },
+    Pair2 { cov: BTreeSet<u16>, c1: ClassDef, c2: ClassDef, n1: usize, n2: usize, recs: Vec<Vec<(Val, Val)>>, second: bool },
+    Unsupported(String),
+}
+
+impl Sub {
+    fn label(&self) -> &'static str {
+        match self {
+            Sub::Single(_) => "single",
+            Sub::Multiple(_) => "multiple",
+            Sub::Ligature(_) => "ligature",
+            Sub::Context(Ctx::Glyphs { .. }) => "context-f1",
+            Sub::Context(Ctx::Classes { .. }) => "context-f2",
+            Sub::Context(Ctx::Coverages { .. }) => "context-f3",
+            Sub::SinglePos(_) => "singlepos",
+            Sub::Pair1 { .. } => "pair-f1",
+            Sub::Pair2 { .. } => "pair-f2",
+            Sub::Unsupported(_) => "unsupported",
+        }
+    }
+}
+
+#[derive(Debug, Clone)]
+struct Lookup {
+    ty: u16,
+    ext: bool,
+    flag: u16,
+    mark_set: Option<u16>,
+    subs: Vec<Sub>,
+}
+
+#[derive(Debug, Default, Clone)]
+struct Layout {
+    // script tag -> (default langsys, lang tag -> langsys); langsys = (required feature, feature indices)
+    scripts: BTreeMap<String, (Option<LangSys>, BTreeMap<String, LangSys>)>,
+    features: Vec<(String, Vec<usize>)>,
+    lookups: Vec<Lookup>,
+}
+
+#[derive(Debug, Default, Clone)]
+struct LangSys {
+    required: Option<usize>,
+    features: Vec<usize>,
+}
+
+#[derive(Debug, Default, Clone)]
+struct Gdef {
+    classes: ClassDef,
+    mark_attach: ClassDef,
+    mark_sets: Vec<BTreeSet<u16>>,
+}
+
+fn value(r: Rd, off: usize, fmt: u16) -> R<(Val, usize)> {
+    let mut v = [0i32; 4];
+    let mut o = off;
+    for bit in 0..8 {
+        if fmt & (1 << bit) != 0 {
+            if bit < 4 {
+                v[bit] = r.i16(o)? as i32;
+            }
+            // device / variation index offsets are skipped (static values only)
+            o += 2;
+        }
+    }
+    Ok((v, o - off))
+}
+
+fn seq_recs(r: Rd, off: usize, n: usize) -> R<Vec<SeqRec>> {
+    (0..n)
+        .map(|k| Ok(SeqRec { seq_idx: r.u16(off + 4 * k)? as usize, lookup: r.u16(off + 4 * k + 2)? as usize }))
+        .collect()
+}
+
+fn ctx_rule(r: Rd, chained: bool) -> R<CtxRule> {
+    if chained {
+        let mut o = 0;
+        let nb = r.u16(o)? as usize;
+        let back = r.u16s(o + 2, nb)?;
+        o += 2 + 2 * nb;
+        let ni = r.u16(o)? as usize;
+        if ni == 0 {
+            return Err("chain rule with zero input glyphs".into());
+        }
+        let input = r.u16s(o + 2, ni - 1)?;
+        o += 2 + 2 * (ni - 1);
+        let nl = r.u16(o)? as usize;
+        let look = r.u16s(o + 2, nl)?;
+        o += 2 + 2 * nl;
+        let nr = r.u16(o)? as usize;
+        Ok(CtxRule { back, input, look, recs: seq_recs(r, o + 2, nr)? })
+    } else {
+        let ni = r.u16(0)? as usize;
+        let nr = r.u16(2)? as usize;
+        if ni == 0 {
+            return Err("context rule with zero input glyphs".into());
+        }
+        let input = r.u16s(4, ni - 1)?;
+        Ok(CtxRule { back: vec![], input, look: vec![], recs: seq_recs(r, 4 + 2 * (ni - 1), nr)? })
+    }
+}
+
+fn rule_sets(r: Rd, off: usize, chained: bool) -> R<Vec<Vec<CtxRule>>> {
+    let n = r.u16(off)? as usize;
+    let mut sets = Vec::new();
+    for k in 0..n {
+        let so = r.u16(off + 2 + 2 * k)? as usize;
+        if so == 0 {
+            sets.push(vec![]);
+            continue;
+        }
+        let s = r.at(so)?;
+        let nr = s.u16(0)? as usize;
+        let mut rules = Vec::new();
+        for j in 0..nr {
+            rules.push(ctx_rule(s.at(s.u16(2 + 2 * j)? as usize)?, chained)?);
+        }
+        sets.push(rules);
+    }
+    Ok(sets)
+}
+
+fn cov_set(r: Rd) -> R<BTreeSet<u16>> {
+    Ok(coverage(r)?.into_iter().collect())
+}
+
+fn context(r: Rd, chained: bool) -> R<Ctx> {
+    match (r.u16(0)?, chained) {
+        (1, _) => Ok(Ctx::Glyphs { cov: coverage(r.at(r.u16(2)? as usize)?)?, sets: rule_sets(r, 4, chained)? }),
+        (2, false) => Ok(Ctx::Classes {
+            cov: coverage(r.at(r.u16(2)? as usize)?)?,
+            cb: ClassDef::default(),
+            ci: classdef(r.at(r.u16(4)? as usize)?)?,
+            cl: ClassDef::default(),
+            sets: rule_sets(r, 6, false)?,
+        }),
+        (2, true) => {
+            let cd = |o: usize| -> R<ClassDef> {
+                let off = r.u16(o)? as usize;
+                if off == 0 { Ok(ClassDef::default()) } else { classdef(r.at(off)?) }
+            };
+            Ok(Ctx::Classes {
+                cov: coverage(r.at(r.u16(2)? as usize)?)?,
+                cb: cd(4)?,
+                ci: cd(6)?,
+                cl: cd(8)?,
+                sets: rule_sets(r, 10, true)?,
+            })
+        }
+        (3, false) => {
+            let ni = r.u16(2)? as usize;
+            let nr = r.u16(4)? as usize;
+            let mut input = Vec::new();
+            for k in 0..ni {
+                input.push(cov_set(r.at(r.u16(6 + 2 * k)? as usize)?)?);
+            }
+            Ok(Ctx::Coverages { back: vec![], input, look: vec![], recs: seq_recs(r, 6 + 2 * ni, nr)? })
+        }
+        (3, true) => {
+            let mut o = 2;
+            let mut seqs: Vec<Vec<BTreeSet<u16>>> = Vec::new();
+            for _ in 0..3 {
+                let n = r.u16(o)? as usize;
+                let mut v = Vec::new();
+                for k in 0..n {
+                    v.push(cov_set(r.at(r.u16(o + 2 + 2 * k)? as usize)?)?);
+                }
+                o += 2 + 2 * n;
+                seqs.push(v);
+            }
+            let nr = r.u16(o)? as usize;
+            let look = seqs.pop().unwrap();
+            let input = seqs.pop().unwrap();
+            let back = seqs.pop().unwrap();
+            Ok(Ctx::Coverages { back, input, look, recs: seq_recs(r, o + 2, nr)? })
+        }
+        (f, _) => Err(format!("context format {f}")),
+    }
+}
+
+fn gsub_subtable(r: Rd, ty: u16) -> R<Sub> {
+    match ty {
+        1 => {
+            let cov = coverage(r.at(r.u16(2)? as usize)?)?;
+            let mut m = BTreeMap::new();
+            match r.u16(0)? {
+                1 => {
+                    let d = r.i16(4)?;
+                    for g in cov {
+                        m.insert(g, (g as i32 + d as i32).rem_euclid(65536) as u16);
+                    }
+                }
+                2 => {
+                    let n = r.u16(4)? as usize;
+                    if n != cov.len() {
+                        return Err("single subst 2: glyph count != coverage".into());
+                    }
+                    for (k, g) in cov.into_iter().enumerate() {
+                        m.insert(g, r.u16(6 + 2 * k)?);
+                    }
+                }
+                f => return Err(format!("single subst format {f}")),
+            }
+            Ok(Sub::Single(m))
+        }
+        2 => {
+            let cov = coverage(r.at(r.u16(2)? as usize)?)?;
+            let n = r.u16(4)? as usize;
+            if n != cov.len() {
+                return Err("multiple subst: sequence count != coverage".into());
+            }
+            let mut m = BTreeMap::new();
+            for (k, g) in cov.into_iter().enumerate() {
+                let s = r.at(r.u16(6 + 2 * k)? as usize)?;
+                let c = s.u16(0)? as usize;
+                m.insert(g, s.u16s(2, c)?);
+            }
+            Ok(Sub::Multiple(m))
+        }
+        4 => {
+            let cov = coverage(r.at(r.u16(2)? as usize)?)?;
+            let n = r.u16(4)? as usize;
+            if n != cov.len() {
+                return Err("ligature subst: set count != coverage".into());
+            }
+            let mut m = BTreeMap::new();
+            for (k, g) in cov.into_iter().enumerate() {
+                let s = r.at(r.u16(6 + 2 * k)? as usize)?;
+                let c = s.u16(0)? as usize;
+                let mut ligs = Vec::new();
+                for j in 0..c {
+                    let l = s.at(s.u16(2 + 2 * j)? as usize)?;
+                    let lig = l.u16(0)?;
+                    let nc = l.u16(2)? as usize;
+                    if nc == 0 {
+                        return Err("ligature with zero components".into());
+                    }
+                    ligs.push((l.u16s(4, nc - 1)?, lig));
+                }
+                m.insert(g, ligs);
+            }
+            Ok(Sub::Ligature(m))
+        }
+        5 => Ok(Sub::Context(context(r, false)?)),
+        6 => Ok(Sub::Context(context(r, true)?)),
+        t => Ok(Sub::Unsupported(format!("GSUB lookup type {t}"))),
+    }
+}
+
+fn gpos_subtable(r: Rd, ty: u16) -> R<Sub> {
+    match ty {
+        1 => {
+            let cov = coverage(r.at(r.u16(2)? as usize)?)?;
+            let vf = r.u16(4)?;
+            let mut m = BTreeMap::new();
+            match r.u16(0)? {
+                1 => {
+                    let (v, _) = value(r, 6, vf)?;
+                    for g in cov {
+                        m.insert(g, v);
+                    }
+                }
+                2 => {
+                    let n = r.u16(6)? as usize;
+                    if n != cov.len() {
+                        return Err("single pos 2: value count != coverage".into());
+                    }
+                    let mut o = 8;
+                    for g in cov {
+                        let (v, sz) = value(r, o, vf)?;
+                        o += sz;
+                        m.insert(g, v);
+                    }
+                }
+                f => return Err(format!("single pos format {f}")),
+            }
+            Ok(Sub::SinglePos(m))
+        }
+        2 => {
+            let cov = coverage(r.at(r.u16(2)? as usize)?)?;
+            let (vf1, vf2) = (r.u16(4)?, r.u16(6)?);
+            match r.u16(0)? {
+                1 => {
+                    let n = r.u16(8)? as usize;
+                    if n != cov.len() {
+                        return Err("pair pos 1: pair set count != coverage".into());
+                    }
+                    let mut sets = BTreeMap::new();
+                    for (k, g) in cov.into_iter().enumerate() {
+                        let s = r.at(r.u16(10 + 2 * k)? as usize)?;
+                        let c = s.u16(0)? as usize;
+                        let mut o = 2;
+                        let mut recs = Vec::new();
+                        for _ in 0..c {
+                            let second = s.u16(o)?;
+                            o += 2;
+                            let (v1, s1) = value(s, o, vf1)?;
+                            o += s1;
+                            let (v2, s2) = value(s, o, vf2)?;
+                            o += s2;
+                            recs.push((second, v1, v2));
+                        }
+                        sets.insert(g, recs);
+                    }
+                    Ok(Sub::Pair1 { sets, second: vf2 != 0 })
+                }
+                2 => {
+                    let c1 = classdef(r.at(r.u16(8)? as usize)?)?;
+                    let c2 = classdef(r.at(r.u16(10)? as usize)?)?;
+                    let (n1, n2) = (r.u16(12)? as usize, r.u16(14)? as usize);
+                    let mut o = 16;
+                    let mut recs = Vec::new();
+                    for _ in 0..n1 {
+                        let mut row = Vec::new();
+                        for _ in 0..n2 {
+                            let (v1, s1) = value(r, o, vf1)?;
+                            o += s1;
+                            let (v2, s2) = value(r, o, vf2)?;
+                            o += s2;
+                            row.push((v1, v2));
+                        }
+                        recs.push(row);
+                    }
+                    Ok(Sub::Pair2 { cov: cov.into_iter().collect(), c1, c2, n1, n2, recs, second: vf2 != 0 })
+                }
+                f => Err(format!("pair pos format {f}")),
+            }
+        }
+        t => Ok(Sub::Unsupported(format!("GPOS lookup type {t}"))),
+    }
+}
+
+fn layout(data: &[u8], gpos: bool) -> R<Layout> {
+    let r = Rd { d: data };
+    let mut out = Layout::default();
+    let sl = r.at(r.u16(4)? as usize)?;
+    let fl = r.at(r.u16(6)? as usize)?;
+    let ll = r.at(r.u16(8)? as usize)?;
+    let langsys = |l: Rd| -> R<LangSys> {
+        let req = l.u16(2)?;
+        let n = l.u16(4)? as usize;
+        Ok(LangSys {
+            required: if req == 0xFFFF { None } else { Some(req as usize) },
+            features: l.u16s(6, n)?.into_iter().map(|x| x as usize).collect(),
+        })
+    };
+    for k in 0..sl.u16(0)? as usize {
+        let tag = sl.tag(2 + 6 * k)?;
+        let s = sl.at(sl.u16(6 + 6 * k)? as usize)?;
+        let dflt = s.u16(0)? as usize;
+        let d = if dflt == 0 { None } else { Some(langsys(s.at(dflt)?)?) };
+        let mut langs = BTreeMap::new();
+        for j in 0..s.u16(2)? as usize {
+            langs.insert(s.tag(4 + 6 * j)?, langsys(s.at(s.u16(8 + 6 * j)? as usize)?)?);
+        }
+        out.scripts.insert(tag, (d, langs));
+    }
+    for k in 0..fl.u16(0)? as usize {
+        let tag = fl.tag(2 + 6 * k)?;
+        let f = fl.at(fl.u16(6 + 6 * k)? as usize)?;
+        let n = f.u16(2)? as usize;
+        out.features.push((tag, f.u16s(4, n)?.into_iter().map(|x| x as usize).collect()));
+    }
+    let ext_type = if gpos { 9 } else { 7 };
+    for k in 0..ll.u16(0)? as usize {
+        let l = ll.at(ll.u16(2 + 2 * k)? as usize)?;
+        let mut ty = l.u16(0)?;
+        let ext = ty == ext_type;
+        let flag = l.u16(2)?;
+        let n = l.u16(4)? as usize;
+        let mark_set = if flag & 0x10 != 0 { Some(l.u16(6 + 2 * n)?) } else { None };
+        let mut subs = Vec::new();
+        let mut real_ty = None;
+        for j in 0..n {
+            let mut s = l.at(l.u16(6 + 2 * j)? as usize)?;
+            let mut sty = ty;
+            if ty == ext_type {
+                if s.u16(0)? != 1 {
+                    return Err("extension format".into());
+                }
+                sty = s.u16(2)?;
+                s = s.at(s.u32(4)? as usize)?;
+            }
+            if let Some(t) = real_ty {
+                if t != sty {
+                    return Err("extension subtables of different types in one lookup".into());
+                }
+            }
+            real_ty = Some(sty);
+            subs.push(if gpos { gpos_subtable(s, sty)? } else { gsub_subtable(s, sty)? });
+        }
+        if let Some(t) = real_ty {
+            ty = t;
+        }
+        out.lookups.push(Lookup { ty, ext, flag, mark_set, subs });
+    }
+    Ok(out)
+}
+
+fn gdef(data: &[u8]) -> R<Gdef> {
+    let r = Rd { d: data };
+    let minor = r.u16(2)?;
+    let mut g = Gdef::default();
+    let o = r.u16(4)? as usize;
+    if o != 0 {
+        g.classes = classdef(r.at(o)?)?;
+    }
+    let o = r.u16(10)? as usize;
+    if o != 0 {
+        g.mark_attach = classdef(r.at(o)?)?;
+    }
+    if minor >= 2 {
+        let o = r.u16(12)? as usize;
+        if o != 0 {
+            let m = r.at(o)?;
+            for k in 0..m.u16(2)? as usize {
+                g.mark_sets.push(cov_set(m.at(m.u32(4 + 4 * k)? as usize)?)?);
+            }
+        }
+    }
+    Ok(g)
+}
+
+// ------------------------------------------------------------------------------------------ interpreter
+
+struct Font {
+    gsub: Option<Layout>,
+    gpos: Option<Layout>,
+    gdef: Gdef,
+}
+
+struct Buf {
+    g: Vec<u16>,
+    v: Vec<Val>,
+}
+
+const MAX_DEPTH: usize = 6;
+const MAX_LEN: usize = 64;
+
+impl Font {
+    fn skip(&self, l: &Lookup, g: u16) -> bool {
+        let class = self.gdef.classes.get(g);
+        let f = l.flag;
+        if f & 0x2 != 0 && class == 1 {
+            return true;
+        }
+        if f & 0x4 != 0 && class == 2 {
+            return true;
+        }
+        if class == 3 {
+            if f & 0x8 != 0 {
+                return true;
+            }
+            if f & 0x10 != 0 {
+                let set = l.mark_set.and_then(|k| self.gdef.mark_sets.get(k as usize));
+                return !set.map(|s| s.contains(&g)).unwrap_or(false);
+            }
+            let mat = f >> 8;
+            if mat != 0 {
+                return self.gdef.mark_attach.get(g) != mat;
+            }
+        }
+        false
+    }
+
+    fn next(&self, l: &Lookup, g: &[u16], mut i: usize) -> Option<usize> {
+        while i < g.len() {
+            if !self.skip(l, g[i]) {
+                return Some(i);
+            }
+            i += 1;
+        }
+        None
+    }
+
+    fn prev(&self, l: &Lookup, g: &[u16], i: usize) -> Option<usize> {
+        // first non-skipped index < i
+        let mut k = i;
+        while k > 0 {
+            k -= 1;
+            if !self.skip(l, g[k]) {
+                return Some(k);
+            }
+        }
+        None
+    }
+
+    /// positions of the input sequence starting at i (g[i] already matched) for `n_rest` further items
+    fn match_input(&self, l: &Lookup, g: &[u16], i: usize, n_rest: usize, pred: &dyn Fn(usize, u16) -> bool) -> Option<Vec<usize>> {
+        let mut pos = vec![i];
+        let mut cur = i;
+        for k in 0..n_rest {
+            let j = self.next(l, g, cur + 1)?;
+            if !pred(k, g[j]) {
+                return None;
+            }
+            pos.push(j);
+            cur = j;
+        }
+        Some(pos)
+    }
+
+    fn match_back(&self, l: &Lookup, g: &[u16], i: usize, n: usize, pred: &dyn Fn(usize, u16) -> bool) -> bool {
+        let mut cur = i;
+        for k in 0..n {
+            match self.prev(l, g, cur) {
+                Some(j) if pred(k, g[j]) => cur = j,
+                _ => return false,
+            }
+        }
+        true
+    }
+
+    fn match_ahead(&self, l: &Lookup, g: &[u16], last: usize, n: usize, pred: &dyn Fn(usize, u16) -> bool) -> bool {
+        let mut cur = last;
+        for k in 0..n {
+            match self.next(l, g, cur + 1) {
+                Some(j) if pred(k, g[j]) => cur = j,
+                _ => return false,
+            }
+        }
+        true
+    }
+
+    /// Try GSUB lookup `li` at position i (which the caller has established is not skipped, or which is a
+    /// nested application). Returns the index processing continues at when a subtable applied.
+    fn gsub_at(&self, lay: &Layout, li: usize, b: &mut Buf, i: usize, depth: usize, notes: &mut BTreeSet<String>) -> Option<usize> {
+        let l = lay.lookups.get(li)?;
+        if i >= b.g.len() {
+            return None;
+        }
+        let g0 = b.g[i];
+        for sub in &l.subs {
+            match sub {
+                Sub::Single(m) => {
+                    if let Some(&r) = m.get(&g0) {
+                        b.g[i] = r;
+                        return Some(i + 1);
+                    }
+                }
+                Sub::Multiple(m) => {
+                    if let Some(seq) = m.get(&g0) {
+                        if b.g.len() + seq.len() > MAX_LEN {
+                            return None;
+                        }
+                        b.g.splice(i..i + 1, seq.iter().copied());
+                        return Some(i + seq.len());
+                    }
+                }
+                Sub::Ligature(m) => {
+                    if let Some(ligs) = m.get(&g0) {
+                        for (comps, lig) in ligs {
+                            if let Some(pos) = self.match_input(l, &b.g, i, comps.len(), &|k, g| comps[k] == g) {
+                                b.g[i] = *lig;
+                                // remove the matched components, keep the skipped glyphs in place
+                                for &p in pos[1..].iter().rev() {
+                                    b.g.remove(p);
+                                }
+                                let last = pos[pos.len() - 1];
+                                return Some(last + 1 - (pos.len() - 1));
+                            }
+                        }
+                    }
+                }
+                Sub::Context(c) => {
+                    if let Some((pos, recs)) = self.ctx_match(l, c, &b.g, i) {
+                        return Some(self.apply_nested(lay, li, b, pos, &recs, depth, notes, false));
+                    }
+                }
+                Sub::Unsupported(what) => {
+                    notes.insert(format!("unsupported: {what}"));
+                }
+                _ => {
+                    notes.insert("GPOS subtable in GSUB lookup".into());
+                }
+            }
+        }
+        None
+    }
+
+    fn ctx_match(&self, l: &Lookup, c: &Ctx, g: &[u16], i: usize) -> Option<(Vec<usize>, Vec<SeqRec>)> {
+        let g0 = g[i];
+        match c {
+            Ctx::Glyphs { cov, sets } => {
+                let ci = cov.iter().position(|&x| x == g0)?;
+                for rule in sets.get(ci)? {
+                    if let Some(pos) = self.match_input(l, g, i, rule.input.len(), &|k, x| rule.input[k] == x) {
+                        if self.match_back(l, g, i, rule.back.len(), &|k, x| rule.back[k] == x)
+                            && self.match_ahead(l, g, pos[pos.len() - 1], rule.look.len(), &|k, x| rule.look[k] == x)
+                        {
+                            return Some((pos, rule.recs.clone()));
+                        }
+                    }
+                }
+                None
+            }
+            Ctx::Classes { cov, cb, ci, cl, sets } => {
+                if !cov.contains(&g0) {
+                    return None;
+                }
+                for rule in sets.get(ci.get(g0) as usize)? {
+                    if let Some(pos) = self.match_input(l, g, i, rule.input.len(), &|k, x| rule.input[k] == ci.get(x)) {
+                        if self.match_back(l, g, i, rule.back.len(), &|k, x| rule.back[k] == cb.get(x))
+                            && self.match_ahead(l, g, pos[pos.len() - 1], rule.look.len(), &|k, x| rule.look[k] == cl.get(x))
+                        {
+                            return Some((pos, rule.recs.clone()));
+                        }
+                    }
+                }
+                None
+            }
+            Ctx::Coverages { back, input, look, recs } => {
+                if input.is_empty() || !input[0].contains(&g0) {
+                    return None;
+                }
+                let pos = self.match_input(l, g, i, input.len() - 1, &|k, x| input[k + 1].contains(&x))?;
+                if self.match_back(l, g, i, back.len(), &|k, x| back[k].contains(&x))
+                    && self.match_ahead(l, g, pos[pos.len() - 1], look.len(), &|k, x| look[k].contains(&x))
+                {
+                    Some((pos, recs.clone()))
+                } else {
+                    None
+                }
+            }
+        }
+    }
+
+    /// HarfBuzz `apply_lookup`: nested lookups at the matched positions, positions adjusted when a nested
+    /// lookup changes the length; returns the index after the (adjusted) input sequence.
+    #[allow(clippy::too_many_arguments)]
+    fn apply_nested(&self, lay: &Layout, this: usize, b: &mut Buf, mut pos: Vec<usize>, recs: &[SeqRec], depth: usize,
+                    notes: &mut BTreeSet<String>, gpos: bool) -> usize {
+        let mut count = pos.len() as isize;
+        let mut end = (pos[pos.len() - 1] + 1) as isize;
+        if depth >= MAX_DEPTH {
+            notes.insert("nesting limit".into());
+            return end as usize;
+        }
+        for rec in recs {
+            let idx = rec.seq_idx as isize;
+            if idx >= count {
+                continue;
+            }
+            // do not recurse to ourself at the same position
+            if idx == 0 && rec.lookup == this {
+                continue;
+            }
+            let orig_len = b.g.len() as isize;
+            let p = pos[idx as usize];
+            let applied = if gpos {
+                self.gpos_at(lay, rec.lookup, b, p, notes).is_some()
+            } else {
+                self.gsub_at(lay, rec.lookup, b, p, depth + 1, notes).is_some()
+            };
+            if !applied {
+                continue;
+            }
+            let mut delta = b.g.len() as isize - orig_len;
+            if delta == 0 {
+                continue;
+            }
+            end += delta;
+            if end < p as isize {
+                end -= delta;
+                break;
+            }
+            let mut next = idx + 1;
+            if delta > 0 {
+                if delta + count > MAX_LEN as isize {
+                    break;
+                }
+            } else {
+                delta = delta.max(next - count);
+                next -= delta;
+            }
+            // shift the tail
+            let mut np: Vec<isize> = pos.iter().map(|&x| x as isize).collect();
+            let old = np.clone();
+            np.resize((count + delta).max(0) as usize, 0);
+            for k in next..count {
+                let dst = k + delta;
+                if dst >= 0 && (dst as usize) < np.len() {
+                    np[dst as usize] = old[k as usize];
+                }
+            }
+            next += delta;
+            count += delta;
+            for j in (idx + 1)..next {
+                np[j as usize] = np[(j - 1) as usize] + 1;
+            }
+            for j in next..count {
+                np[j as usize] += delta;
+            }
+            pos = np.into_iter().map(|x| x.max(0) as usize).collect();
+        }
+        end.max(0) as usize
+    }
+
+    fn gpos_at(&self, lay: &Layout, li: usize, b: &mut Buf, i: usize, notes: &mut BTreeSet<String>) -> Option<usize> {
+        let l = lay.lookups.get(li)?;
+        if i >= b.g.len() {
+            return None;
+        }
+        let g0 = b.g[i];
+        let add = |dst: &mut Val, v: &Val| {
+            for k in 0..4 {
+                dst[k] += v[k];
+            }
+        };
+        for sub in &l.subs {
+            match sub {
+                Sub::SinglePos(m) => {
+                    if let Some(v) = m.get(&g0) {
+                        add(&mut b.v[i], v);
+                        return Some(i + 1);
+                    }
+                }
+                Sub::Pair1 { sets, second } => {
+                    if let Some(recs) = sets.get(&g0) {
+                        let j = self.next(l, &b.g, i + 1)?;
+                        if let Some((_, v1, v2)) = recs.iter().find(|(s, _, _)| *s == b.g[j]) {
+                            add(&mut b.v[i], v1);
+                            add(&mut b.v[j], v2);
+                            return Some(if *second { j + 1 } else { j });
+                        }
+                    }
+                }
+                Sub::Pair2 { cov, c1, c2, n1, n2, recs, second } => {
+                    if cov.contains(&g0) {
+                        let j = self.next(l, &b.g, i + 1)?;
+                        let (k1, k2) = (c1.get(g0) as usize, c2.get(b.g[j]) as usize);
+                        if k1 < *n1 && k2 < *n2 {
+                            let (v1, v2) = &recs[k1][k2];
+                            add(&mut b.v[i], v1);
+                            add(&mut b.v[j], v2);
+                            return Some(if *second { j + 1 } else { j });
+                        }
+                    }
+                }
+                Sub::Unsupported(what) => {
+                    notes.insert(format!("unsupported: {what}"));
+                }
+                _ => {
+                    notes.insert("GSUB subtable in GPOS lookup".into());
+                }
+            }
+        }
+        None
+    }
+
+    fn selected(lay: &Layout, script: &str, lang: &str, feats: &[String]) -> Vec<usize> {
+        // Literal resolution: what this table registers for exactly this script and language ("dflt" is the
+        // script's DefaultLangSys). The fallbacks a shaper adds (script -> DFLT, language -> DefaultLangSys) act
+        // per table and are not something a feature file talks about, so they are not applied here.
+        let Some((dflt, langs)) = lay.scripts.get(script) else { return vec![] };
+        let ls = if lang == "dflt" { dflt.as_ref() } else { langs.get(lang) };
+        let Some(ls) = ls else { return vec![] };
+        let mut out = BTreeSet::new();
+        let mut take = |fi: usize, always: bool| {
+            if let Some((tag, lookups)) = lay.features.get(fi) {
+                if always || feats.iter().any(|f| f == tag) {
+                    out.extend(lookups.iter().copied());
+                }
+            }
+        };
+        if let Some(r) = ls.required {
+            take(r, true);
+        }
+        for &fi in &ls.features {
+            take(fi, false);
+        }
+        out.into_iter().collect()
+    }
+
+    fn shape(&self, script: &str, lang: &str, feats: &[String], input: &[u16], notes: &mut BTreeSet<String>) -> Buf {
+        let mut b = Buf { g: input.to_vec(), v: vec![] };
+        if let Some(lay) = &self.gsub {
+            for li in Self::selected(lay, script, lang, feats) {
+                let l = &lay.lookups[li];
+                let mut i = 0;
+                while i < b.g.len() {
+                    if self.skip(l, b.g[i]) {
+                        i += 1;
+                        continue;
+                    }
+                    match self.gsub_at(lay, li, &mut b, i, 0, notes) {
+                        Some(n) => i = n,
+                        None => i += 1,
+                    }
+                }
+            }
+        }
+        b.v = vec![[0; 4]; b.g.len()];
+        if let Some(lay) = &self.gpos {
+            for li in Self::selected(lay, script, lang, feats) {
+                let l = &lay.lookups[li];
+                let mut i = 0;
+                while i < b.g.len() {
+                    if self.skip(l, b.g[i]) {
+                        i += 1;
+                        continue;
+                    }
+                    match self.gpos_at(lay, li, &mut b, i, notes) {
+                        Some(n) => i = n.max(i + 1),
+                        None => i += 1,
+                    }
+                }
+            }
+        }
+        b
+    }
+}
+
+// ------------------------------------------------------------------------------------------ driver
+
+fn string_at(alpha: &[u16], n: usize) -> Vec<u16> {
+    // n is 0-based here
+    let a = alpha.len();
+    if n < a {
+        vec![alpha[n]]
+    } else if n < a + a * a {
+        let q = n - a;
+        vec![alpha[q / a], alpha[q % a]]
+    } else {
+        let q = n - a - a * a;
+        vec![alpha[q / (a * a)], alpha[(q / a) % a], alpha[q % a]]
+    }
+}
+
+fn glyph_map(req: &Value) -> Result<GlyphMap, String> {
+    let mut idents: Vec<GlyphIdent> = Vec::new();
+    if let Some(names) = req.get("glyphs").and_then(Value::as_array) {
+        for n in names {
+            idents.push(GlyphIdent::Name(n.as_str().ok_or("glyph name")?.into()));
+        }
+    } else if let Some(p) = req.get("glyph_order_file").and_then(Value::as_str) {
+        let text = std::fs::read_to_string(p).map_err(|e| format!("{p}: {e}"))?;
+        for line in text.lines() {
+            let line = line.trim();
+            if !line.is_empty() && !line.starts_with('#') {
+                idents.push(GlyphIdent::Name(line.into()));
+            }
+        }
+    } else {
+        return Err("no glyph order".into());
+    }
+    if let Some(c) = req.get("add_cids").and_then(Value::as_array) {
+        let (lo, hi) = (c[0].as_u64().unwrap_or(0) as u16, c[1].as_u64().unwrap_or(0) as u16);
+        for cid in lo..=hi {
+            idents.push(GlyphIdent::Cid(cid));
+        }
+    }
+    GlyphMap::new(idents).map_err(|e| format!("glyph order: {e}"))
+}
+
+fn handle(req: &Value) -> Value {
+    let tag = req.get("tag").cloned().unwrap_or(Value::Null);
+    let fea: Arc<str> = Arc::from(req.get("fea").and_then(Value::as_str).unwrap_or(""));
+    let gm = match glyph_map(req) {
+        Ok(g) => g,
+        Err(e) => return json!({"tag": tag, "outcome": "bad_request", "message": e}),
+    };
+    let fea2 = fea.clone();
+    let compiled = std::panic::catch_unwind(std::panic::AssertUnwindSafe(|| {
+        let resolver = move |p: &Path| -> Result<Arc<str>, fea_rs::parse::SourceLoadError> {
+            if p == Path::new("features.fea") {
+                Ok(fea2.clone())
+            } else {
+                Err(fea_rs::parse::SourceLoadError::new(
+                    p.to_path_buf(),
+                    std::io::Error::new(std::io::ErrorKind::NotFound, "no includes in this harness"),
+                ))
+            }
+        };
+        Compiler::<NopFeatureProvider, NopVariationInfo>::new("features.fea", &gm)
+            .with_resolver(resolver)
+            .compile_binary()
+            .map_err(|e| match e {
+                fea_rs::compile::error::CompilerError::ParseFail(d)
+                | fea_rs::compile::error::CompilerError::ValidationFail(d)
+                | fea_rs::compile::error::CompilerError::CompilationFail(d) => d.display().to_string(),
+                other => other.to_string(),
+            })
+    }));
+    let bytes = match compiled {
+        Err(p) => {
+            let msg = p
+                .downcast_ref::<String>()
+                .cloned()
+                .or_else(|| p.downcast_ref::<&str>().map(|s| s.to_string()))
+                .unwrap_or_default();
+            return json!({"tag": tag, "outcome": "panic", "message": msg});
+        }
+        Ok(Err(e)) => return json!({"tag": tag, "outcome": "compile_error", "message": e}),
+        Ok(Ok(b)) => b,
+    };
+    let font = match FontRef::new(&bytes) {
+        Ok(f) => f,
+        Err(e) => return json!({"tag": tag, "outcome": "bad_table", "message": format!("font: {e}")}),
+    };
+    let table = |t: &[u8; 4]| font.table_data(Tag::new(t)).map(|d| d.as_bytes().to_vec());
+    let parsed = (|| -> R<Font> {
+        Ok(Font {
+            gsub: match table(b"GSUB") {
+                Some(d) => Some(layout(&d, false).map_err(|e| format!("GSUB: {e}"))?),
+                None => None,
+            },
+            gpos: match table(b"GPOS") {
+                Some(d) => Some(layout(&d, true).map_err(|e| format!("GPOS: {e}"))?),
+                None => None,
+            },
+            gdef: match table(b"GDEF") {
+                Some(d) => gdef(&d).map_err(|e| format!("GDEF: {e}"))?,
+                None => Gdef::default(),
+            },
+        })
+    })();
+    let f = match parsed {
+        Ok(f) => f,
+        Err(e) => return json!({"tag": tag, "outcome": "bad_table", "message": e}),
+    };
+    // read-fonts must at least agree that the tables are there (sanity; the interpretation is ours)
+    let _ = (font.gsub().is_ok(), font.gpos().is_ok());
+
+    let alpha: Vec<u16> = req
+        .get("alpha")
+        .and_then(Value::as_array)
+        .map(|a| a.iter().map(|x| x.as_u64().unwrap_or(0) as u16).collect())
+        .unwrap_or_default();
+    let maxlen = req.get("maxlen").and_then(Value::as_u64).unwrap_or(3) as usize;
+    let a = alpha.len();
+    let total = match maxlen {
+        1 => a,
+        2 => a + a * a,
+        _ => a + a * a + a * a * a,
+    };
+    let mut notes = BTreeSet::new();
+    let mut results = Vec::new();
+    let mut lookups_used = Vec::new();
+    for q in req.get("queries").and_then(Value::as_array).cloned().unwrap_or_default() {
+        let script = q[0].as_str().unwrap_or("DFLT").to_string();
+        let lang = q[1].as_str().unwrap_or("dflt").to_string();
+        let feats: Vec<String> = q[2].as_array().map(|v| v.iter().filter_map(|x| x.as_str().map(String::from)).collect()).unwrap_or_default();
+        let mut sparse = Vec::new();
+        for n in 0..total {
+            let input = string_at(&alpha, n);
+            let out = f.shape(&script, &lang, &feats, &input, &mut notes);
+            let identity = out.g == input && out.v.iter().all(|v| v.iter().all(|&x| x == 0));
+            if !identity {
+                let adv: Vec<Value> = out
+                    .v
+                    .iter()
+                    .map(|v| if v[0] == 0 && v[1] == 0 && v[3] == 0 { json!(v[2]) } else { json!(v.to_vec()) })
+                    .collect();
+                sparse.push(json!([n + 1, out.g, adv]));
+            }
+        }
+        results.push(Value::Array(sparse));
+        lookups_used.push(json!({
+            "gsub": f.gsub.as_ref().map(|l| Font::selected(l, &script, &lang, &feats)),
+            "gpos": f.gpos.as_ref().map(|l| Font::selected(l, &script, &lang, &feats)),
+        }));
+    }
+    let describe = |l: &Option<Layout>| -> Value {
+        match l {
+            None => Value::Null,
+            Some(l) => json!({
+                "lookups": l.lookups.iter().map(|x| json!([x.ty, x.flag, x.subs.iter().map(|s| s.label()).collect::<Vec<_>>(), x.ext])).collect::<Vec<_>>(),
+                "features": l.features.iter().map(|(t, ls)| json!([t, ls])).collect::<Vec<_>>(),
+                "scripts": l.scripts.iter().map(|(t, (d, langs))| json!([t, d.is_some(), langs.keys().collect::<Vec<_>>()])).collect::<Vec<_>>(),
+            }),
+        }
+    };
+    json!({"tag": tag, "outcome": "ok", "results": results, "notes": notes.into_iter().collect::<Vec<_>>(),
+           "info": {"gsub": describe(&f.gsub), "gpos": describe(&f.gpos), "used": lookups_used,
+                    "marks": f.gdef.classes.0.iter().filter(|(_, c)| **c == 3).map(|(g, _)| *g).collect::<Vec<_>>()}})
+}
+
+pub fn run(args: &[String]) -> i32 {
+    // quiet panics: they are data
+    std::panic::set_hook(Box::new(|_| {}));
+    let input: Box<dyn BufRead> = match args.first() {
+        Some(p) => match std::fs::File::open(p) {
+            Ok(f) => Box::new(std::io::BufReader::new(f)),
+            Err(e) => {
+                eprintln!("vh feasem: {p}: {e}");
+                return 2;
+            }
+        },
+        None => Box::new(std::io::BufReader::new(std::io::stdin())),
+    };
+    let stdout = std::io::stdout();
+    let mut out = stdout.lock();
+    for line in input.lines() {
+        let Ok(line) = line else { break };
+        if line.trim().is_empty() {
+            continue;
+        }
+        let res = match serde_json::from_str::<Value>(&line) {
+            Ok(req) => handle(&req),
+            Err(e) => json!({"outcome": "bad_request", "message": e.to_string()}),
+        };
+        let _ = writeln!(out, "{res}");
+        let _ = out.flush();
+    }
+    0
 }
